@@ -237,21 +237,32 @@ Proof. exact c01_store_sliced_refuted. Qed.
 Print Assumptions C01_history_store_sliced_refuted.
 
 (* CALLER-SIDE OVERWRITES.  A call may be followed by the caller overwriting, in place, the arrays it was handed; the effect
-   on the object is modelled as an arbitrary change g of the cache IF those arrays are the cache or a view of it.
-   With nothing cached nothing the caller holds aliases the object: every observation is what a fresh object returns ... *)
+   is modelled as an arbitrary change g of the cache IF those arrays were the cache or a view of it.  get_lonlats stores and
+   hands out copies (alias = false): for every history of calls and overwrites, with any cache flags, every observation is
+   what a fresh object returns ... *)
+Theorem C01_history_overwrite_safe : forall (T : Type) (OP : ops T) (invT invP : T * T -> T * T) (a : area T)
+    (ms : list (c01_mop (T:=T))),
+  (0 <= width a)%Z -> (0 <= height a)%Z -> Forall (fun m => c01_op_ok a (c01_mop_op m)) ms ->
+  c01_mrun OP invT invP a false None ms = map (fun m => c01_stateless OP invT invP a (c01_mop_op m)) ms.
+Proof.
+  intros T OP invT invP a ms Hw Hh Hok. rewrite c01_mrun_no_alias.
+  rewrite (c01_history_stateless OP invT invP a Hw Hh (map (@c01_mop_op T) ms)); [now rewrite map_map | | left; reflexivity].
+  rewrite Forall_map. exact Hok.
+Qed.
+Print Assumptions C01_history_overwrite_safe.
+(* ... and even the variant that hands out the cache itself (alias = true) is safe as long as nothing is cached ... *)
 Theorem C01_history_overwrite_safe_without_cache : forall (T : Type) (OP : ops T) (invT invP : T * T -> T * T) (a : area T)
     (ms : list (c01_mop (T:=T))),
   Forall (fun m => c01_no_cache_op (c01_mop_op m)) ms ->
-  c01_mrun OP invT invP a None ms = map (fun m => c01_stateless OP invT invP a (c01_mop_op m)) ms.
+  c01_mrun OP invT invP a true None ms = map (fun m => c01_stateless OP invT invP a (c01_mop_op m)) ms.
 Proof. intros T OP invT invP a ms H. apply c01_mrun_no_cache. exact H. Qed.
 Print Assumptions C01_history_overwrite_safe_without_cache.
-(* ... but on the code as it is, cache=True hands out the cache itself: an overwrite after it changes later answers
-   (finding C01.lonlat.history.cache_aliasing) *)
+(* ... but with cache=True that variant is refuted (the behaviour fixed by 0014900f) *)
 Theorem C01_history_aliased_overwrite_refuted :
   let a := mk_area 0%float 0%float 2%float 2%float 2 2 in
   let scale := map (map (fun p : float * float => (PrimFloat.mul (fst p) 0.5%float, snd p))) in
   let ms := [MCall (OpLonlats None None true) (Some scale); MCall (OpLonlats None None false) None] in
-  c01_mrun F64 (fun p => p) (fun p => p) a None ms <> map (fun m => c01_stateless F64 (fun p => p) (fun p => p) a (c01_mop_op m)) ms.
+  c01_mrun F64 (fun p => p) (fun p => p) a true None ms <> map (fun m => c01_stateless F64 (fun p => p) (fun p => p) a (c01_mop_op m)) ms.
 Proof. exact c01_aliased_overwrite_refuted. Qed.
 Print Assumptions C01_history_aliased_overwrite_refuted.
 
